@@ -392,4 +392,77 @@ theorem mpz_com_ok {s : St} (h : Inv s) {dst src : Nat} (hd : dst < s.nv) (hs : 
   exact ⟨_, rfl, iX, uX.nv.trans nv1, vX.trans hv, fun i hi hid =>
     (uX.value_o i1 (by rw [nv1]; exact hd) (by rw [nv1]; exact hi) hid).trans (val1 i hi)⟩
 
+/-! ### mpz_neg, mpz_abs -/
+
+theorem setSize_setSize (s : St) (w : Nat) (a b : Int) : (s.setSize w a).setSize w b = s.setSize w b := by
+  cases s with
+  | mk nv vars blk next =>
+    simp only [St.setSize, St.setVar, St.mk.injEq, true_and, and_true]
+    funext j
+    by_cases e : j = w <;> simp [e]
+
+/-- rewriting the size field with the same magnitude: only the sign changes -/
+theorem flip_spec {s : St} (h : Inv s) {w : Nat} (hw : w < s.nv) (z : Int) (hz : z.natAbs = (s.size w).natAbs) :
+    Inv (s.setSize w z) ∧ Upd s (s.setSize w z) w ∧ (s.setSize w z).value w = sgnv z (s.mag w) := by
+  obtain ⟨b, hb, hbl, hbL⟩ := h.live w hw
+  rw [setSize_eq_put s hb]
+  have hsn := h.size_natAbs hw
+  have hfit := h.fits w hw
+  have p := put_upd h hw b (s.mag w) (decide (z < 0)) hbl hbL (by rw [← hsn]; exact hfit)
+    (by rw [← hsn]; unfold St.mag St.limbs; rw [hb]; rfl)
+  have hsz : (if decide (z < 0) = true then -((sizeNat (s.mag w) : Nat) : Int) else ((sizeNat (s.mag w) : Nat) : Int)) = z := by
+    rw [← hsn, ← hz]
+    by_cases h0 : z < 0
+    · rw [if_pos (by simpa using h0)]; omega
+    · rw [if_neg (by simpa using h0)]; omega
+  rw [hsz] at p
+  refine ⟨p.1, p.2.1, ?_⟩
+  rw [p.2.2]; unfold sgnv
+  by_cases h0 : z < 0 <;> simp [h0]
+
+theorem mpz_negabs_ok (isAbs : Bool) {s : St} (h : Inv s) {w u : Nat} (hw : w < s.nv) (hu : u < s.nv) :
+    ∃ s', mpz_negabs isAbs w u s = .ok s' ∧ Res s s' w (if isAbs then ((s.value u).natAbs : Int) else -(s.value u)) := by
+  unfold mpz_negabs
+  simp only [bind, Except.bind, pure, Except.pure]
+  set z : Int := (if isAbs then ((s.size u).natAbs : Int) else -(s.size u)) with hzdef
+  have hzabs : z.natAbs = (s.size u).natAbs := by
+    cases isAbs
+    · simp [hzdef]
+    · simp only [hzdef, if_true]; omega
+  have hval : ∀ m : Nat, (s.size u = 0 → m = 0) →
+      sgnv z m = (if isAbs then ((sgnv (s.size u) m).natAbs : Int) else -(sgnv (s.size u) m)) := by
+    intro m hm
+    cases isAbs
+    · simp only [hzdef, Bool.false_eq_true, if_false]; exact sgnv_neg _ _ hm
+    · simp only [hzdef, if_true, sgnv_natAbs]
+      unfold sgnv; rw [if_neg (by omega)]
+  by_cases huw : u = w
+  · subst huw
+    simp only [ne_eq, not_true_eq_false, if_false]
+    obtain ⟨i1, u1, v1⟩ := flip_spec h hw z hzabs
+    refine ⟨_, rfl, i1, u1.nv, ?_, fun i hi hiw => u1.value_o h hw hi hiw⟩
+    rw [v1, hval _ (fun h0 => h.mag_zero hw h0), ← value_eq_sgnv]
+  · rw [if_pos huw]
+    obtain ⟨i1, nv1, size1, val1, a1, _⟩ := realloc_spec h hw (s.size u).natAbs
+    set s1 := s.mpzRealloc w (s.size u).natAbs with hs1
+    have hw1 : w < s1.nv := by rw [nv1]; exact hw
+    have hu1 : u < s1.nv := by rw [nv1]; exact hu
+    have hl := i1.load_var hu1; rw [size1] at hl
+    rw [hl]; simp only []
+    obtain ⟨X, eX, iX, nX, vX, oX⟩ := assign_spec i1 hw1 hu1 (by rw [size1]; exact a1)
+    rw [eX]; simp only []
+    set Y := X.setSize w (s1.size u) with hY
+    have hYw : w < Y.nv := by rw [nX]; exact hw1
+    have hYsz : Y.size w = s.size u := by
+      simp [hY, St.setSize, St.setVar, St.size, size1]
+      exact size1 u
+    obtain ⟨i2, u2, v2⟩ := flip_spec iX hYw z (by rw [hzabs, hYsz])
+    rw [hY, setSize_setSize] at i2 u2 v2
+    refine ⟨_, rfl, i2, by rw [u2.nv, nX, nv1], ?_, fun i hi hiw => ?_⟩
+    · rw [v2]
+      have hm : Y.mag w = s.mag u := by
+        rw [← value_natAbs, ← value_natAbs, vX, val1 u hu]
+      rw [hm, hval _ (fun h0 => h.mag_zero hu h0), ← value_eq_sgnv]
+    · rw [u2.value_o iX hYw (by rw [nX, nv1]; exact hi) hiw, oX i (by rw [nv1]; exact hi) hiw, val1 i hi]
+
 end Mpir.AliasMem
